@@ -22,6 +22,14 @@ open FV FV.C03
 /-- The obligation over the generated table. -/
 theorem class_table_ok : tableOk Gen.classTable Gen.probes = true := by decide
 
+/-- **No two distinct classes share an origin**: the class component of Memoize's HEAD key
+    (`get_origin(cls)`, fully qualified) separates all term classes of the table, so with `headKey` two
+    requests share an entry only if they are the same class with equal arguments
+    (`head_key_injective`). -/
+theorem class_origins_distinct : Gen.classOrigins.Nodup := by decide
+
+theorem class_origins_cover : Gen.classOrigins.length = Gen.classTable.length := by decide
+
 /-- What `tableOk` means, spelled out for any table. -/
 theorem tableOk_spec (table : List ClassEntry) (probes : List Probe) (h : tableOk table probes = true)
     (a b : String) (hp : (a, b) ∈ candidatePairs table) :
